@@ -60,6 +60,14 @@ void dtw_dba_{{ suffix }}(
     idx_t path_length;
 
     idx_t wps_length = dtw_settings_wps_length(t, {{max_length}}, settings);
+    {%- if "ptrs" in suffix %}
+    // With a window, the compact matrix for a shorter series can be wider than for the longest one
+    for (r_idx=0; r_idx<nb_ptrs; r_idx++) {
+        if (dtw_settings_wps_length(t, lengths[r_idx], settings) > wps_length) {
+            wps_length = dtw_settings_wps_length(t, lengths[r_idx], settings);
+        }
+    }
+    {%- endif %}
     wps = (seq_t *)malloc(wps_length * sizeof(seq_t));
 
     for (pi=0; pi<t; pi++) {
